@@ -214,6 +214,10 @@ def ncomp_from_gmm(vals: np.ndarray,
     # Rescale the data if warranted
     if rescale_0_to_x is not None:
         vals = minmax_scale(vals) * rescale_0_to_x
+    else:
+        # Mixture models do not care about a global offset ... but their covariance estimates do, numerically
+        # (cancellation for thin groups very high up): fit the values counted from the lowest one.
+        vals = vals - np.min(vals)
 
     # List all the number of components I should try
     ncomp = np.linspace(1, ncomp_max, ncomp_max, dtype=int)
